@@ -554,6 +554,39 @@ func init() {
 				zlint.LintOcspResponse(r)
 			}()
 		}
+		// the shared CRL / OCSP zoo (numeric boundaries, large lists, odd extensions) through the entry points
+		for _, cc := range crlZoo() {
+			cc := cc
+			linted++
+			classes["linted: zoo crl"]++
+			func() {
+				defer func() {
+					if p := recover(); p != nil {
+						out.Violate("C02|panic-escapes:crl", fmt.Sprintf("LintRevocationList panicked on the generated CRL %s: %v", cc.File, p), map[string]interface{}{"crl": cc.File, "der": hexs(cc.DER)}, nil, nil)
+					}
+				}()
+				crl, err := safeParseCRL(cc.DER)
+				if err != nil {
+					return
+				}
+				if m := panicMarkers(zlint.LintRevocationList(crl)); len(m) > 0 {
+					out.Violate("C02|panicked:crl", m[0], map[string]interface{}{"crl": cc.File, "der": hexs(cc.DER)}, nil, nil)
+				}
+			}()
+		}
+		for _, cc := range ocspZoo() {
+			cc := cc
+			linted++
+			classes["linted: zoo ocsp"]++
+			func() {
+				defer func() {
+					if p := recover(); p != nil {
+						out.Violate("C02|panic-escapes:ocsp", fmt.Sprintf("LintOcspResponse panicked on the generated response %s: %v", cc.File, p), map[string]interface{}{"ocsp": cc.File, "der": hexs(cc.DER)}, nil, nil)
+					}
+				}()
+				zlint.LintOcspResponse(cc.Resp)
+			}()
+		}
 		out.Stats["linted"] = linted
 		out.Stats["rejected_by_parser"] = rejected
 		out.Data["classes"] = classes
